@@ -789,3 +789,29 @@ func ReturnNilErr() Ev {
 		return ok && c.Value == nil
 	}
 }
+
+// Edge of the CFG inside a region.
+type Edge struct{ From, To *ssa.BasicBlock }
+
+// EstablishingEdges: the edges inside the region (target in the region, not the back edge to the
+// loop header) that establish p, in block order.
+func (r *Region) EstablishingEdges(p Pred) []Edge {
+	var out []Edge
+	for _, b := range r.Fi.Fn.Blocks {
+		if r.Allowed != nil && !r.Allowed[b] {
+			continue
+		}
+		for _, s := range b.Succs {
+			if r.Head != nil && s == r.Head {
+				continue
+			}
+			if r.Allowed != nil && !r.Allowed[s] {
+				continue
+			}
+			if Establishes(b, s, p) {
+				out = append(out, Edge{b, s})
+			}
+		}
+	}
+	return out
+}
